@@ -72,11 +72,13 @@ class MixedUnitaryChannel(raw_types.Gate):
             return NotImplemented
         if self._key != other._key:
             return False
+        if len(self._mixture) != len(other._mixture):
+            return False
         if not np.allclose([m[0] for m in self._mixture], [m[0] for m in other._mixture]):
             return False
-        return np.allclose(
-            np.asarray([m[1] for m in self._mixture]), np.asarray([m[1] for m in other._mixture])
-        )
+        ops = np.asarray([m[1] for m in self._mixture])
+        other_ops = np.asarray([m[1] for m in other._mixture])
+        return ops.shape == other_ops.shape and np.allclose(ops, other_ops)
 
     def __hash__(self) -> int:
         # __eq__ compares the mixture approximately, so only exactly compared data may be hashed.
@@ -133,7 +135,7 @@ class MixedUnitaryChannel(raw_types.Gate):
         ]
         args = [f'mixture=[{", ".join(unitary_tuples)}]']
         if self._key is not None:
-            args.append(f'key=\'{self._key}\'')
+            args.append(f'key={repr(self._key) if self._key.path else repr(str(self._key))}')
         return f'cirq.MixedUnitaryChannel({", ".join(args)})'
 
     def _json_dict_(self) -> dict[str, Any]:
